@@ -1,0 +1,15 @@
+//go:build verif
+
+package types
+
+// VerifEpochHook, when set (verification harness only), is called once per subscriber
+// immediately before MultiEpochHooks delivers an epoch notification to it.
+// kind is "end" (AfterEpochEnd) or "start" (BeforeEpochStart); index is the position of
+// the subscriber in the fan-out.
+var VerifEpochHook func(kind string, identifier string, number int64, index int, subscriber EpochHooks)
+
+func verifEpochHook(kind string, identifier string, number int64, index int, subscriber EpochHooks) {
+	if VerifEpochHook != nil {
+		VerifEpochHook(kind, identifier, number, index, subscriber)
+	}
+}
